@@ -170,6 +170,9 @@ struct Cfg {
     disc_ms: u64,
     /// the transport delivers and accepts one byte at a time
     one_byte: bool,
+    /// the transport accepts only the first three bytes of the first frame after Login Success (a Keep
+    /// Alive when routing is slow) and then blocks until t = 20 s, i.e. until after discovery has answered
+    ka_stall: bool,
 }
 
 /// The reference automaton. Returns every allowed prediction (more than one where a frame is
@@ -265,6 +268,11 @@ fn build(hist: &[Kind], cfg: &Cfg) -> Case {
     if cfg.one_byte {
         case.transport.read_chunk = Some(1);
         case.transport.write_chunk = Some(1);
+    }
+    if cfg.ka_stall {
+        // clientbound frames of a completed login: [cookie request,] encryption request, login success, then this one
+        let frame = 2 + usize::from(cfg.secret);
+        case.transport.writes.push(WriteDev { frame, prog: vec![WStep::Accept(3), WStep::Until(20_000)] });
     }
     case.script = hist
         .iter()
@@ -415,19 +423,21 @@ pub fn run(cli: Cli) -> ! {
     for secret in [false, true] {
         for status in ["minimal", "none", "full"] {
             for disc_ms in if thorough { vec![0u64, 17_000] } else { vec![0u64] } {
-                cfgs.push(Cfg { secret, status, disc_ms, one_byte: false });
+                cfgs.push(Cfg { secret, status, disc_ms, one_byte: false, ka_stall: false });
             }
         }
     }
     // routing that completes 1-4 s before a keep-alive tick (whatever follows the Transfer would show)
-    cfgs.push(Cfg { secret: true, status: "minimal", disc_ms: 12_000, one_byte: false });
-    cfgs.push(Cfg { secret: false, status: "minimal", disc_ms: 15_000, one_byte: false });
+    cfgs.push(Cfg { secret: true, status: "minimal", disc_ms: 12_000, one_byte: false, ka_stall: false });
+    cfgs.push(Cfg { secret: false, status: "minimal", disc_ms: 15_000, one_byte: false, ka_stall: false });
+    // a Keep Alive that the transport accepts only partially before discovery answers
+    cfgs.push(Cfg { secret: true, status: "minimal", disc_ms: 17_000, one_byte: false, ka_stall: true });
     if !thorough {
-        cfgs.push(Cfg { secret: true, status: "minimal", disc_ms: 17_000, one_byte: false });
+        cfgs.push(Cfg { secret: true, status: "minimal", disc_ms: 17_000, one_byte: false, ka_stall: false });
     } else {
         // the same search over a transport that moves one byte at a time
-        cfgs.push(Cfg { secret: true, status: "full", disc_ms: 0, one_byte: true });
-        cfgs.push(Cfg { secret: false, status: "minimal", disc_ms: 17_000, one_byte: true });
+        cfgs.push(Cfg { secret: true, status: "full", disc_ms: 0, one_byte: true, ka_stall: false });
+        cfgs.push(Cfg { secret: false, status: "minimal", disc_ms: 17_000, one_byte: true, ka_stall: false });
     }
     let depth_cap = if thorough { 11 } else { 9 };
     // in the configuration phase only this many further packets are explored per history
@@ -436,7 +446,7 @@ pub fn run(cli: Cli) -> ! {
     if let Some(case) = cli.replay.clone() {
         let names: Vec<String> = serde_json::from_value(case["history"].clone()).unwrap_or_default();
         let hist: Vec<Kind> = names.iter().filter_map(|n| all_kinds.iter().find(|k| k.name == n).cloned()).collect();
-        let cfg = Cfg { secret: case["secret"].as_bool().unwrap_or(false), status: match case["status"].as_str() { Some("none") => "none", Some("full") => "full", _ => "minimal" }, disc_ms: case["disc_ms"].as_u64().unwrap_or(0), one_byte: case["one_byte"].as_bool().unwrap_or(false) };
+        let cfg = Cfg { secret: case["secret"].as_bool().unwrap_or(false), status: match case["status"].as_str() { Some("none") => "none", Some("full") => "full", _ => "minimal" }, disc_ms: case["disc_ms"].as_u64().unwrap_or(0), one_byte: case["one_byte"].as_bool().unwrap_or(false), ka_stall: case["ka_stall"].as_bool().unwrap_or(false) };
         let obs = crate::sim::run(&build(&hist, &cfg));
         let preds = predict(&hist, &cfg);
         println!("history: {}", hist_json(&hist));
@@ -497,11 +507,14 @@ pub fn run(cli: Cli) -> ! {
                 }
                 let errs: Vec<Option<(String, String)>> = preds.iter().map(|p| check(p, &obs, cfg)).collect();
                 if errs.iter().all(|e| e.is_some()) {
-                    let (k, t) = errs[0].clone().unwrap();
+                    // diagnose against the prediction that agrees with the observation for longest
+                    let agree = |p: &Pred| p.outs.iter().zip(obs.packets.iter()).take_while(|(e, (_, pk))| matches_exp(e, pk, cfg)).count();
+                    let best = (0..preds.len()).max_by_key(|&i| (agree(&preds[i]), usize::MAX - i)).unwrap_or(0);
+                    let (k, t) = errs[best].clone().unwrap();
                     rep.violation(Violation {
                         key: k,
                         text: format!("history {} secret={} status={} disc_ms={}: {t}", hist_json(h), cfg.secret, cfg.status, cfg.disc_ms),
-                        replay: json!({"history": hist_json(h), "secret": cfg.secret, "status": cfg.status, "disc_ms": cfg.disc_ms, "one_byte": cfg.one_byte}),
+                        replay: json!({"history": hist_json(h), "secret": cfg.secret, "status": cfg.status, "disc_ms": cfg.disc_ms, "one_byte": cfg.one_byte, "ka_stall": cfg.ka_stall}),
                         weight: h.len() as u64,
                     });
                     return;
